@@ -2128,4 +2128,22 @@ theorem wrapper_path_examples :
   decide
 
 
+
+/-! ### observation (outside the statement): nested expansion in collect-all mode -/
+
+/-- In collect-all mode a nested structure's errors arrive as a JSON list inside the outer message
+    (`Outer.arr_1: ["Inner.x: …"]`).  The field is always recovered (`render_parse_exact`), but
+    whether the helper can expand the list depends on the INNER message's shape: a value-first inner
+    message leaves the JSON intact as the problem (regex 3), a value-last inner message (every
+    `Expected <class …>; Got …` type error) makes regex 2 split the OUTER text at the inner `; Got `,
+    so the problem is a truncated JSON text (not expanded) and the value is the tail `'a'"]` -/
+theorem nested_expansion_depends_on_inner_shape :
+    parseMsg asciiWord "Outer.arr_1: [\"Inner.s: Got 'abc'; Expected a maximum length of 2\"]".toList =
+      ⟨some "Outer.arr_1".toList, none,
+       "[\"Inner.s: Got 'abc'; Expected a maximum length of 2\"]".toList⟩ ∧
+    parseMsg asciiWord "Outer.arr_1: [\"Inner.x: Expected <class 'int'>; Got 'a'\"]".toList =
+      ⟨some "Outer.arr_1".toList, some "'a'\"]".toList, "[\"Inner.x: Expected <class 'int'>".toList⟩ := by
+  decide
+
+
 end Typedpy.C18
